@@ -28,6 +28,9 @@ retried alone in a fresh state and, if it only shows after other constructions, 
 shrunk list of earlier specs that reproduces it (case kind "hist", replayed in order).  A dedicated family builds every
 operator whose width is special (comparisons, parity, FLAG_*, *WC flags, zeroExt/signExt/fp conversions, segm) with
 several operand-size combinations, and nodes built on them, forward, in reverse and as ordered pairs per operator.
+Held objects (check_held): trees built on an identifier are kept while the same (name, size) is constructed in the other
+str/bytes spelling, with another size, another name; after every construction every kept object must read the same
+(repr, size, hash, components), parse back from its repr and be what rebuilding its spec returns.
 """
 import copy
 import itertools
@@ -55,7 +58,8 @@ LEVEL_NOTE = ("Trusted: CPython pickle/copy, the spec->components reference in t
               "the deprecated ExprAff alias, zero-part compositions, garbage-collection histories of the hash-consing table "
               "(it holds strong references), canonize() raising on identifier names outside latin-1 (counted only).")
 TECHNIQUE = "bounded-exhaustive enumeration of expression specifications against a component-level reference model"
-ASSUMPTIONS = ["identifier names are str (not bytes)",
+ASSUMPTIONS = ["identifier names are str; bytes names only appear as LATER constructions in the held-object histories (whether b'x' and 'x' "
+               "are one identifier is left open, an object already in use must not be rewritten by the other spelling)",
                "components of an assignment to a slice are the completed (destination, source) pair the constructor documents"]
 
 NAMES = ["a", "a b", "a'b", 'a"b', "a\\b", "a\\'b", "é", "日本", "\n", "", "ab\\", "a'\"b"]
@@ -603,6 +607,132 @@ def hist_sequences(thorough):
     return seqs
 
 
+# ------------------------------------------------------------------ held objects across later constructions
+
+def _has_bytes(s):
+    if s[0] == "id":
+        return isinstance(s[1], bytes)
+    return any(_has_bytes(c) for c in children(s))
+
+
+def _spelled(s):
+    """spec with bytes names decoded (latin-1): two specs equal under _spelled differ only in the str/bytes spelling"""
+    if s[0] == "id":
+        return ("id", s[1].decode("latin-1") if isinstance(s[1], bytes) else s[1], s[2])
+    if s[0] in ("int", "loc"):
+        return s
+    if s[0] == "op":
+        return ("op", s[1]) + tuple(_spelled(c) for c in s[2:])
+    if s[0] == "mem":
+        return ("mem", _spelled(s[1]), s[2])
+    if s[0] == "slice":
+        return ("slice", _spelled(s[1]), s[2], s[3])
+    return (s[0],) + tuple(_spelled(c) for c in s[1:])
+
+
+def _contains(big, small):
+    return big != small and (small in children(big) or any(_contains(c, small) for c in children(big)))
+
+
+def _observe(e):
+    return (repr(e), e.size, hash(e), to_spec(e))
+
+
+def check_held(specs, parse=True):
+    """Build specs in order from a fresh state and KEEP every object.  After each construction every earlier object
+    must be observably what it was (repr, size, hash, components), its repr must still parse back to it (specs with
+    str names only), rebuilding its spec must give it back, and two specs that differ in more than the str/bytes spelling
+    of a name must not share an object.  (An implementation may or may not identify b'x' with 'x'; it may not let one
+    spelling rewrite an object that is already in use.)"""
+    specs = [tup(x) for x in specs]
+    fresh_state()
+    from miasm.expression.parser import str_to_expr   # bound after fresh_state(): the parser of the new generation
+    held = []
+    vs = []
+
+    pending = []
+
+    def report(kind, j, i, what):
+        pending.append((kind, j, i, what))      # recorded after the sequence: minimising re-enters fresh_state()
+
+    def emit(kind, j, i, what):
+        pair = [specs[j], specs[i]]
+        case = {"k": "held", "specs": pair if _reproduces(pair, kind) else specs[:i + 1]}
+        vs.append(violation("held:%s:%s|by-constructing:%s" % (kind, skel(_spelled(specs[j])),
+                                                              "a-bytes-named-tree" if _has_bytes(specs[i]) else "a-str-named-tree"), what, case))
+
+    for i, s in enumerate(specs):
+        try:
+            e = build(s)
+        except Exception:
+            continue
+        changed = {}
+        for j, ej, snap in held:
+            try:
+                now = _observe(ej)
+            except Exception as ex:
+                now = ("raise", repr(ex))
+            if now != snap:
+                changed[j] = now
+        for j, ej, snap in held:
+            if j in changed:
+                # report the smallest changed objects only (a changed leaf changes every tree built on it)
+                if not any(k != j and _contains(_spelled(specs[j]), _spelled(specs[k])) for k in changed):
+                    report("earlier-object-changed", j, i, "%r was built from %r; after constructing %r it reads %r" % (
+                        snap[0], specs[j], s, changed[j][0]))
+                continue
+            if any(_contains(_spelled(specs[j]), _spelled(specs[k])) for k in changed):
+                continue
+            if ej is e and _spelled(norm(specs[j])) != _spelled(norm(s)):
+                report("two-component-tuples-one-object", j, i, "%r and %r are one object" % (specs[j], s))
+            if parse and not _has_bytes(specs[j]):
+                try:
+                    back = str_to_expr(repr(ej))
+                except Exception as ex:
+                    back = ex
+                if back is not ej:
+                    report("repr-no-longer-parses-back", j, i, "after constructing %r: str_to_expr(%s) gives %r" % (s, repr(ej), back))
+                elif build(specs[j]) is not ej:
+                    report("rebuild-gives-another-object", j, i, "after constructing %r, building %r again gives another object" % (s, specs[j]))
+        held.append((i, e, _observe(e)))
+    for args in pending:
+        emit(*args)
+    fresh_state()
+    return vs
+
+
+_in_repro = [False]
+
+
+def _reproduces(pair, kind):
+    if _in_repro[0]:
+        return False
+    _in_repro[0] = True
+    try:
+        return any(v["sig"].split(":")[1] == kind for v in check_held(pair))
+    finally:
+        _in_repro[0] = False
+
+
+def held_sequences(thorough):
+    """the same identifier (name, size) spelled as str and as bytes, trees built on one spelling held while the other
+    spelling (and unrelated identifiers) are constructed; both directions"""
+    seqs = []
+    for name in ("a", "EAX", "é"):
+        raw = name.encode("latin-1")
+        for sz in (8, 32):
+            for first, second in ((name, raw), (raw, name)):
+                q = ("id", first, sz)
+                k = ("int", 1, sz)
+                trees = [q, ("op", "+", q, k), ("op", "-", q), ("mem", q, 8), ("slice", q, 0, 4), ("compose", q, q), ("compose", q),
+                         ("cond", q, q, k), ("assign", q, k), ("op", "==", q, k), ("op", "+", ("mem", q, sz), ("op", "-", q))]
+                others = [("id", second, sz + 8), ("id", first + first, sz), ("id", second, sz), ("op", "+", ("id", second, sz), k),
+                          ("id", first, sz)]
+                seqs.append(trees + others)
+                seqs.append([q, ("id", second, sz)])
+    return seqs
+
+
 def check_pairs(specs):
     """No two different norm(spec) share an object; equal norm(spec) give one object (whole shard)."""
     vs = []
@@ -883,6 +1013,14 @@ def _shard(args):
         fresh_state()
         return {"n": 0, "nt": 0, "vs": pv[:50], "sample": None, "pairs_table": len(allspecs), "distinct_objects": ndist,
                 "neighbours": 0, "canonize_raised": 0, "kinds": {}, "dependent": 0, "histories": 0}
+    if kind == "held":
+        seqs = held_sequences(thorough) + [hist_menu(), list(reversed(hist_menu()))]
+        n = 0
+        for i in range(idx, len(seqs), nsh):
+            vs += check_held(seqs[i], parse=(thorough or len(seqs[i]) < 40))
+            n += len(seqs[i])
+        return {"n": n, "nt": n, "vs": vs[:80], "sample": None, "pairs_table": 0, "distinct_objects": 0, "neighbours": 0,
+                "canonize_raised": 0, "kinds": {}, "dependent": 0, "histories": len(range(idx, len(seqs), nsh))}
     if kind == "hist":
         seqs = hist_sequences(thorough)
         n = dep = 0
@@ -925,6 +1063,7 @@ def run(ctx):
         shards += [("expr", fam, thorough, i, k) for i in range(k)]
     shards += [("pairs", "ints+leaves+names+d1+d2", thorough, 0, 1)]
     shards += [("hist", "", thorough, i, 4) for i in range(4)]
+    shards += [("held", "", thorough, i, 2) for i in range(2)]
     res, how = amap(ctx, _shard, shards)
     for r in res:
         ctx.add_violations(r["vs"])
@@ -960,4 +1099,6 @@ def replay(case):
         return vs
     if case["k"] == "hist":
         return check_history(case["specs"])
+    if case["k"] == "held":
+        return check_held(case["specs"])
     return []
